@@ -64,6 +64,10 @@ def run(ctx: Ctx) -> None:
     rep.rule("C08.R17", "once stored, a blob stays present and absent keys stay absent whatever is read: the reading methods of the memory store change none of its tables")
     _n_mrp = _mrp(ctx, "C08.R17")
     rep.floor("C08.R17", _n_mrp, 3)
+    if rep.prop == "C08":
+        from .common import share_rules
+        share_rules(ctx, "C19", "C08.R18", ["C19.R4"], "the DBFS store writes the marker of a blob where has_blob / fetch_blob look for it (under the internal directory): a store reopened on "
+                    "the same internal directory reports the blob present whatever its data directory")
     rep.rule("C08.R15", "a committed path resolves to the key it was committed with, whatever else is asked in the same call: fetch_paths of every store files each requested path in "
                         "one mapping that lives across the loop (as C19.R14)")
     n15 = S.every_path_answered(ctx, "C08.R15")
